@@ -50,10 +50,10 @@ structure KeptLine (l : Str) : Prop where
   edges : Edges l
   nohash : l.head? ≠ some '#'
   nosemi : l.head? ≠ some ';'
-  nonl : '\n' ∉ l
+  nonl : NoBreak l
 
 theorem multiline_tokens (l0 : Str) (ls : List Str)
-    (h0nl : '\n' ∉ l0) (h0 : l0 = [] ∨ ∃ s c, l0 = s ++ [c] ∧ isWs c = false)
+    (h0nl : NoBreak l0) (h0 : l0 = [] ∨ ∃ s c, l0 = s ++ [c] ∧ isWs c = false)
     (hls : ∀ l ∈ ls, KeptLine l) :
     readTokens (multiline (joinNl (l0 :: ls))) = .ok [joinNl (l0 :: ls)] := by
   have hedge0 : Edges (';' :: l0) := by
@@ -64,7 +64,7 @@ theorem multiline_tokens (l0 : Str) (ls : List Str)
   have hstripl : ∀ l ∈ ls, strip l = l := fun l hl => by simpa using strip_edges_spaces _ (hls l hl).edges 0
   have hstripe : strip [';'] = [';'] := by decide
   let X : List Str := [] :: (';' :: l0) :: ls ++ [[';']]
-  have hXnl : ∀ l ∈ X, '\n' ∉ l := by
+  have hXnl : ∀ l ∈ X, NoBreak l := by
     intro l hl
     simp only [X, List.cons_append, List.mem_cons, List.mem_append, List.mem_nil_iff, or_false] at hl
     rcases hl with rfl | rfl | hl | rfl
